@@ -489,7 +489,11 @@ class Nodes:
         Raises:  N/A
         """
         if anchor is not None and value is not None:
-            value = Nodes.wrap_type(value)
+            if not hasattr(value, "anchor"):
+                # Only a value which cannot yet carry an Anchor needs a
+                # wrapper; re-wrapping a node would re-type it by its text
+                # (the String "1" as an Integer) and detach it from its Aliases.
+                value = Nodes.wrap_type(value)
             if not hasattr(value, "anchor"):
                 raise ValueError(
                     "Impossible to add an Anchor to value:  {}".format(value)
